@@ -26,10 +26,40 @@ type Out struct {
 	H int64   `json:"h"`
 	L []int64 `json:"l"`
 	P int64   `json:"p"` // checksum of the whole heap (node identities, Left/Right/Parent pointers, Deleted, iterators)
+	// SafeIt / SafeItFrom are ONE call of the implementation and TWO steps of the model
+	// (Clone t; ItBegin/ItFrom on the hidden clone): Pre is the outcome of the Clone step
+	Pre *Out `json:"pre,omitempty"`
 }
 type Case struct {
 	Ops  []Op  `json:"ops"`
 	Outs []Out `json:"outs"`
+	Via  bool  `json:"via,omitempty"` // history run through the index wrappers of vector_sparse_index.go
+}
+
+// viaIndex: the current history is run through vectorSparseIndex / vectorSparseIndexIterator
+// (hook verif_c19h.go); idxOf / iidxOf map the underlying objects to their wrappers (objects
+// created behind the wrappers' back, e.g. the hidden clone of a Safe iterator, have none and are
+// operated on directly)
+var viaIndex bool
+var idxOf = map[*ad.AvlTree]*ad.VerifC19Index{}
+var iidxOf = map[*ad.AvlIterator]*ad.VerifC19IndexIter{}
+
+func newWorld() []*ad.AvlTree {
+	idxOf = map[*ad.AvlTree]*ad.VerifC19Index{}
+	iidxOf = map[*ad.AvlIterator]*ad.VerifC19IndexIter{}
+	if viaIndex {
+		x := ad.VerifC19NewIndex()
+		idxOf[x.Tree()] = x
+		return []*ad.AvlTree{x.Tree()}
+	}
+	return []*ad.AvlTree{ad.NewAvlTree()}
+}
+
+func countNodes(n *ad.AvlNode) int {
+	c := 0
+	budget := walkGuard
+	preorder(n, func(*ad.AvlNode) { c++ }, &budget)
+	return c
 }
 
 const HP = 2147483647
@@ -60,6 +90,16 @@ func dumpHashD(n *ad.AvlNode, parent *ad.AvlNode, pv int64, h int64, bad *int64,
 }
 func treeHash(t *ad.AvlTree) int64 {
 	var bad int64
+	// the root accessors Emtpy / Value / Left / Right must describe the root object
+	if t.Emtpy() != (t.Root == nil) {
+		bad++
+	}
+	if t.Root != nil {
+		l, r := t.Left(), t.Right()
+		if t.Value() != t.Root.Value || l.Root != t.Root.Left || r.Root != t.Root.Right {
+			bad++
+		}
+	}
 	h := dumpHash(t.Root, nil, -1, 17, &bad)
 	if bad != 0 {
 		return -bad // never equals a model checksum (those are >= 0)
@@ -79,24 +119,36 @@ func heightD(n *ad.AvlNode, depth int) int64 {
 }
 
 func execute(ops []Op) []Out {
-	trees := []*ad.AvlTree{ad.NewAvlTree()}
+	trees := newWorld()
 	var iters []*ad.AvlIterator
 	tk := newTracker()
 	outs := make([]Out, 0, len(ops))
 	for k, o := range ops {
 		r, panicked := safeExecOne(o, &trees, &iters)
+		if !panicked && r.Pre != nil {
+			// the heap after the Clone half of a Safe iterator: the hidden clone, not yet the iterator
+			r.Pre.P, panicked = safeWorldHash(tk, trees, iters[:len(iters)-1])
+		}
 		if !panicked {
 			r.P, panicked = safeWorldHash(tk, trees, iters)
 		}
 		if panicked {
+			pre := r.Pre
 			r = Out{F: false, V: 0, H: -777, L: []int64{}, P: -777}
+			if pre != nil || o.Op == "SafeIt" || o.Op == "SafeItFrom" {
+				r.Pre = &Out{F: false, V: 0, H: -777, L: []int64{}, P: -777}
+			}
 		}
 		outs = append(outs, r)
 		if panicked {
 			// the implementation panicked: its state is garbage from here on; mark this and
 			// every remaining step with an outcome the model never produces (checksum < 0)
 			for j := k + 1; j < len(ops); j++ {
-				outs = append(outs, Out{F: false, V: 0, H: -777, L: []int64{}, P: -777})
+				x := Out{F: false, V: 0, H: -777, L: []int64{}, P: -777}
+				if ops[j].Op == "SafeIt" || ops[j].Op == "SafeItFrom" {
+					x.Pre = &Out{F: false, V: 0, H: -777, L: []int64{}, P: -777}
+				}
+				outs = append(outs, x)
 			}
 			break
 		}
@@ -152,10 +204,23 @@ func execOne(o Op, ptrees *[]*ad.AvlTree, piters *[]*ad.AvlIterator) Out {
 	r.L = []int64{}
 	switch o.Op {
 	case "Ins":
-		r.F = trees[o.T].Insert(int(o.I))
+		if x := idxOf[trees[o.T]]; x != nil {
+			// indexInsert drops the flag: observe it as "the number of reachable objects grew"
+			before := countNodes(trees[o.T].Root)
+			x.Insert(int(o.I))
+			r.F = countNodes(trees[o.T].Root) == before+1
+		} else {
+			r.F = trees[o.T].Insert(int(o.I))
+		}
 		r.H = treeHash(trees[o.T])
 	case "Del":
-		r.F = trees[o.T].Delete(int(o.I))
+		if x := idxOf[trees[o.T]]; x != nil {
+			before := countNodes(trees[o.T].Root)
+			x.Delete(int(o.I))
+			r.F = countNodes(trees[o.T].Root) == before-1
+		} else {
+			r.F = trees[o.T].Delete(int(o.I))
+		}
 		r.H = treeHash(trees[o.T])
 	case "Find":
 		r.F = trees[o.T].FindNode(int(o.I)) != nil
@@ -166,26 +231,74 @@ func execOne(o Op, ptrees *[]*ad.AvlTree, piters *[]*ad.AvlIterator) Out {
 			r.V = int64(n.Value)
 		}
 	case "Clone":
-		c := trees[o.T].Clone()
+		var c *ad.AvlTree
+		if x := idxOf[trees[o.T]]; x != nil {
+			cx := x.Clone()
+			c = cx.Tree()
+			idxOf[c] = cx
+		} else {
+			c = trees[o.T].Clone()
+		}
 		*ptrees = append(trees, c)
 		r.F = true
 		r.H = treeHash(c)
-	case "ItBegin":
-		it := trees[o.T].Iterator()
+	case "ItBegin", "ItFrom", "SafeIt", "SafeItFrom":
+		var it *ad.AvlIterator
+		get := func() int { return it.Get() }
+		if x := idxOf[trees[o.T]]; x != nil {
+			var xi *ad.VerifC19IndexIter
+			switch o.Op {
+			case "ItBegin":
+				xi = x.Iterator()
+			case "ItFrom":
+				xi = x.IteratorFrom(int(o.I))
+			case "SafeIt":
+				xi = x.SafeIterator()
+			default:
+				xi = x.SafeIteratorFrom(int(o.I))
+			}
+			it = xi.It()
+			iidxOf[it] = xi
+			get = xi.Get
+		} else {
+			switch o.Op {
+			case "ItBegin":
+				it = trees[o.T].Iterator()
+			case "ItFrom":
+				it = trees[o.T].IteratorFrom(int(o.I))
+			case "SafeIt":
+				it = trees[o.T].SafeIterator()
+			default:
+				it = trees[o.T].SafeIteratorFrom(int(o.I))
+			}
+		}
+		if o.Op == "SafeIt" || o.Op == "SafeItFrom" {
+			// the private clone the iterator walks becomes a tree of the world (model: Clone t)
+			c := ad.VerifC19IterTree(it)
+			*ptrees = append(trees, c)
+			r.Pre = &Out{F: true, H: treeHash(c), L: []int64{}}
+		}
 		*piters = append(iters, it)
-		r.F, r.V = it.Ok(), int64(it.Get())
-	case "ItFrom":
-		it := trees[o.T].IteratorFrom(int(o.I))
-		*piters = append(iters, it)
-		r.F, r.V = it.Ok(), int64(it.Get())
+		r.F, r.V = it.Ok(), int64(get())
 	case "ItClone":
-		c := iters[o.T].Clone()
-		*piters = append(iters, &c)
-		r.F, r.V = c.Ok(), int64(c.Get())
+		if xi := iidxOf[iters[o.T]]; xi != nil {
+			cx := xi.Clone()
+			c := cx.It()
+			iidxOf[c] = cx
+			*piters = append(iters, c)
+			r.F, r.V = c.Ok(), int64(cx.Get())
+		} else {
+			c := iters[o.T].Clone()
+			*piters = append(iters, &c)
+			r.F, r.V = c.Ok(), int64(c.Get())
+		}
 	case "Next":
 		it := iters[o.T]
 		it.Next()
 		r.F, r.V = it.Ok(), int64(it.Get())
+		if xi := iidxOf[it]; xi != nil {
+			r.V = int64(xi.Get())
+		}
 	case "Elems":
 		r.F = true
 		r.V = height(trees[o.T].Root)
@@ -216,18 +329,39 @@ func coqOp(o Op) string {
 		return fmt.Sprintf("%s %d", o.Op, o.T)
 	}
 }
+func coqOut(o Out) string { return fmt.Sprintf("(%s, %s, %s, %s)", B(o.F), Z(o.V), Z(o.H), ZList(o.L)) }
+
+// SafeIt t / SafeItFrom t i are printed as the two model steps  Clone t; ItBegin j / ItFrom j i
+// where j is the index the hidden clone gets (the number of trees so far)
 func coqCase(c Case) string {
-	ops := make([]string, len(c.Ops))
+	var ops, outs []string
+	var phs []int64
+	nt := 1
 	for i, o := range c.Ops {
-		ops[i] = coqOp(o)
-	}
-	outs := make([]string, len(c.Outs))
-	for i, o := range c.Outs {
-		outs[i] = fmt.Sprintf("(%s, %s, %s, %s)", B(o.F), Z(o.V), Z(o.H), ZList(o.L))
-	}
-	phs := make([]int64, len(c.Outs))
-	for i, o := range c.Outs {
-		phs[i] = o.P
+		out := c.Outs[i]
+		switch o.Op {
+		case "SafeIt", "SafeItFrom":
+			pre := Out{H: -777, P: -777, L: []int64{}}
+			if out.Pre != nil {
+				pre = *out.Pre
+			}
+			ops = append(ops, fmt.Sprintf("Clone %d", o.T))
+			outs = append(outs, coqOut(pre))
+			phs = append(phs, pre.P)
+			if o.Op == "SafeIt" {
+				ops = append(ops, fmt.Sprintf("ItBegin %d", nt))
+			} else {
+				ops = append(ops, fmt.Sprintf("ItFrom %d %s", nt, Z(o.I)))
+			}
+			nt++
+		default:
+			ops = append(ops, coqOp(o))
+			if o.Op == "Clone" {
+				nt++
+			}
+		}
+		outs = append(outs, coqOut(out))
+		phs = append(phs, out.P)
 	}
 	return "(" + List(ops) + ", " + List(outs) + ", " + ZList(phs) + ")"
 }
@@ -272,8 +406,8 @@ func genCase(r *Rng, w *CaseWriter) (Case, stats) {
 		if r.Intn(4) > 0 {
 			t = 0
 		}
-		// weights: Ins Del Find FindLE Clone ItBegin ItFrom ItClone Next Elems
-		wts := []int{22, 22, 3, 4, 1, 3, 5, 1, 0, 2}
+		// weights: Ins Del Find FindLE Clone ItBegin ItFrom ItClone Next Elems SafeIt SafeItFrom
+		wts := []int{22, 22, 3, 4, 1, 3, 5, 1, 0, 2, 1, 2}
 		if niters > 0 {
 			wts[8] = 40
 		} else {
@@ -281,6 +415,9 @@ func genCase(r *Rng, w *CaseWriter) (Case, stats) {
 		}
 		if ntrees >= 3 {
 			wts[4] = 0
+		}
+		if ntrees >= 4 || niters >= 6 {
+			wts[10], wts[11] = 0, 0
 		}
 		if niters >= 6 {
 			wts[5], wts[6], wts[7] = 1, 1, 0
@@ -317,12 +454,21 @@ func genCase(r *Rng, w *CaseWriter) (Case, stats) {
 			ops = append(ops, Op{"Next", k, 0})
 		case 9:
 			ops = append(ops, Op{"Elems", t, 0})
+		case 10:
+			ops = append(ops, Op{"SafeIt", t, 0})
+			ntrees++
+			niters++
+		case 11:
+			ops = append(ops, Op{"SafeItFrom", t, genKey(r, univ)})
+			ntrees++
+			niters++
 		}
 	}
 	_ = liveIter
 	for t := 0; t < ntrees; t++ {
 		ops = append(ops, Op{"Elems", t, 0})
 	}
+	viaIndex = r.Intn(3) == 0
 	outs := execute(ops)
 	// statistics for the non-triviality rule
 	var st stats
@@ -330,7 +476,7 @@ func genCase(r *Rng, w *CaseWriter) (Case, stats) {
 	for i, o := range ops {
 		w.Count("op:" + o.Op)
 		switch o.Op {
-		case "ItBegin", "ItFrom":
+		case "ItBegin", "ItFrom", "SafeIt", "SafeItFrom":
 			seenIter = true
 		case "Ins", "Del":
 			if outs[i].F && seenIter {
@@ -343,7 +489,10 @@ func genCase(r *Rng, w *CaseWriter) (Case, stats) {
 		}
 	}
 	w.Count(fmt.Sprintf("universe:%d", univ))
-	return Case{ops, outs}, st
+	if viaIndex {
+		w.Count("via-index-wrappers")
+	}
+	return Case{ops, outs, viaIndex}, st
 }
 
 func main() {
@@ -364,7 +513,8 @@ func main() {
 		if err := json.Unmarshal(b, &rp); err != nil {
 			Die("%v", err)
 		}
-		c := Case{rp.Case.Ops, execute(rp.Case.Ops)}
+		viaIndex = rp.Case.Via
+		c := Case{rp.Case.Ops, execute(rp.Case.Ops), rp.Case.Via}
 		w := NewCaseWriter(o.Out, "replay", hdr, "pmism", 1000)
 		w.Type = "pcase"
 		w.Add(coqCase(c), c, "replay", true)
@@ -373,7 +523,7 @@ func main() {
 	}
 	w := NewCaseWriter(o.Out, "cases", hdr, "pmism", 25)
 	w.Type = "pcase"
-	w.Rule = "every step is compared on flag, value, tree checksum, key list AND on the checksum of the whole heap (node identities in allocation order, Left/Right/Parent pointers, Deleted flags, unlinked objects, the node pointer of every iterator); random histories of Insert/Delete/Find/FindLE/Clone/Iterator/IteratorFrom/iterator Clone/Next over 1-3 trees and up to 7 live iterators; key universes {0..7, 0..47, -100..99, int64 extremes}; a case is non-trivial iff its largest tree held >= 12 keys and at least 3 successful Insert/Delete happened while an iterator was live; distinct = distinct op list"
+	w.Rule = "every step is compared on flag, value, tree checksum, key list AND on the checksum of the whole heap (node identities in allocation order, Left/Right/Parent pointers, Deleted flags, unlinked objects, the node pointer of every iterator); random histories of Insert/Delete/Find/FindLE/Clone/Iterator/IteratorFrom/SafeIterator/SafeIteratorFrom (one call = the two model steps Clone; Iterator[From] on the hidden clone, whose objects are part of the heap checksum)/iterator Clone/Next over 1-4 trees, one third of the histories run through the index wrappers of vector_sparse_index.go (hook verif_c19h.go), every tree checksum read through Emtpy/Value/Left/Right and up to 7 live iterators; key universes {0..7, 0..47, -100..99, int64 extremes}; a case is non-trivial iff its largest tree held >= 12 keys and at least 3 successful Insert/Delete happened while an iterator was live; distinct = distinct op list"
 	// committed corpus first
 	corpus, _ := os.ReadFile(o.Extra)
 	if len(corpus) > 0 {
@@ -386,6 +536,7 @@ func main() {
 			if err := json.Unmarshal([]byte(line), &c); err != nil {
 				Die("corpus: %v", err)
 			}
+			viaIndex = c.Via
 			c.Outs = execute(c.Ops)
 			w.Add(coqCase(c), c, "corpus:"+line, true)
 			w.Count("corpus")
@@ -422,7 +573,7 @@ func hunt(o Opts) {
 		ops = shrink(ops)
 		f, at := propCheck(ops)
 		r.Found, r.Failure, r.At = true, f, at
-		r.Case = Case{ops, nil}
+		r.Case = Case{ops, nil, viaIndex}
 		func() {
 			defer func() { recover() }()
 			r.Case.Outs = execute(ops)
@@ -437,6 +588,7 @@ func hunt(o Opts) {
 			json.Unmarshal(b, &rp)
 			for _, c := range rp.Cases {
 				r.Tried++
+				viaIndex = c.Via
 				if f, _ := propCheck(c.Ops); f != "" {
 					report(c.Ops)
 					done = true
